@@ -11,9 +11,10 @@ Local Open Scope N_scope.
 Definition C (r g b : N) : color := unnamed (r, g, b).
 Definition CN (r g b : N) (name : list N) : color := mkColor (Some name) (r, g, b).
 
-Definition pack (c : rgb) : N := let '(r, g, b) := c in r * 65536 + g * 256 + b.
+Definition pack (c : rgb) : N := let '(r, g, b) := c in N.shiftl r 16 + N.shiftl g 8 + b.
+(* cheap 32-bit rolling digest of the colour list: h' = (33 h + packed rgb + 1) mod 2^32 *)
 Definition digest (p : palette) : N :=
-  fold_left (fun h c => (h * 16777619 + pack (crgb c) + 1) mod 4294967296) (pcolors p) 0.
+  fold_left (fun h c => N.land (N.shiftl h 5 + h + pack (crgb c) + 1) 4294967295) (pcolors p) 0.
 
 Definition dump_color (c : color) : list Z :=
   let '(r, g, b) := crgb c in
